@@ -437,6 +437,12 @@ func rpcRefreshContract(ctx context.Context, t TransportClient, tp TxPool, signe
 		return RPCRefreshContractResult{}, clientErrf("expected renewal resolution")
 	}
 
+	// check for no funny business
+	if renewalTxn.ID() != hostRenewalTxn.ID() {
+		signer.ReleaseInputs([]types.V2Transaction{renewalTxn})
+		return RPCRefreshContractResult{}, clientErrf("transaction ID mismatch")
+	}
+
 	// validate the host signature
 	if !existing.HostPublicKey.VerifyHash(renewalSigHash, hostRenewal.HostSignature) {
 		signer.ReleaseInputs([]types.V2Transaction{renewalTxn})
@@ -1298,6 +1304,12 @@ func RPCRenewContract(ctx context.Context, t TransportClient, tp TxPool, signer 
 	if !ok {
 		signer.ReleaseInputs([]types.V2Transaction{renewalTxn})
 		return RPCRenewContractResult{}, clientErrf("expected renewal resolution")
+	}
+
+	// check for no funny business
+	if renewalTxn.ID() != hostRenewalTxn.ID() {
+		signer.ReleaseInputs([]types.V2Transaction{renewalTxn})
+		return RPCRenewContractResult{}, clientErrf("transaction ID mismatch")
 	}
 
 	// validate the host signature
